@@ -638,6 +638,71 @@ fn free_scenario(idx: u64, seed: u64, max_spawners: u64) {
     log(json!({"ev":"quiesce"}));
 }
 
+/// Fan-out during shutdown: task 0 runs on processor A and, inside its body, starts a helper thread pinned to a processor B
+/// the pool has never used; the helper spawns task 1 (lazy start-up of B's 8 workers) and the
+/// body waits for the helper.  The pool is dropped just after the helper announced its spawn.  Dropping has to terminate:
+/// the worker running task 0 can only be joined once the helper got through worker start-up.
+fn fanout_scenario(idx: u64, seed: u64) {
+    let mut rng = Rng::new(seed ^ idx.wrapping_mul(0x9E37_79B9_7F4A_7C15));
+    let hw = SystemHardware::current().clone();
+    let cpus: Vec<u64> = hw.processors().processors().iter().map(|p| u64::from(p.id())).collect();
+    if cpus.len() < 2 {
+        return free_scenario(idx, seed, 3);
+    }
+    let a = cpus[rng.below(cpus.len() as u64) as usize];
+    let b = *cpus.iter().filter(|c| **c != a).nth(rng.below(cpus.len() as u64 - 1) as usize).expect("second processor");
+    let wpp = 8u32; // the most the trace's worker ids (processor * 8 + index) can tell apart
+    let pool = Pool::builder().hardware(hw.clone()).workers_per_processor(NonZero::new(wpp).unwrap()).name(format!("fan{idx}")).build();
+    let sh = Arc::new(Shared { hw, real: true, drop_done: AtomicBool::new(false), spawners_quiet: AtomicUsize::new(0), nspawners: 1, ran: std::sync::Mutex::new(std::collections::HashSet::new()) });
+    log(json!({"ev":"scenario","id":format!("fanout-{idx}"),"mode":"free","hw":"real","seed":seed,"early_drop":true,"spawners":2,"wpp":wpp,"tasks":2}));
+    let t0 = TaskSpec { id: 0, urgent: false, panics: false, forget: false, gate: 0 };
+    let t1 = TaskSpec { id: 1, urgent: rng.chance(1, 2), panics: false, forget: false, gate: 0 };
+    let announced = Arc::new(AtomicBool::new(false));
+    let slot: Arc<Mutex<Option<JoinHandle<u64>>>> = Arc::new(Mutex::new(None));
+    let delay = rng.below(250);
+    let spawner = {
+        let (sh, scheduler, announced, slot, t0, t1) = (Arc::clone(&sh), pool.scheduler(), Arc::clone(&announced), Arc::clone(&slot), t0.clone(), t1.clone());
+        thread::spawn(move || {
+            pin_to(&sh.hw, a);
+            log(json!({"ev":"call","t":t0.id,"p":a,"h":true,"x":false,"urgent":false}));
+            let inner = task_body(&scheduler, &sh, &t0);
+            let (sh2, sched2, slot2, t1b) = (Arc::clone(&sh), scheduler.clone(), Arc::clone(&slot), t1.clone());
+            let mut h0 = scheduler.spawn(move || {
+                let v = inner();
+                let helper = thread::spawn(move || {
+                    pin_to(&sh2.hw, b);
+                    announced.store(true, SeqCst);
+                    let h = do_spawn(&sched2, &sh2, &t1b, b);
+                    *slot2.lock().unwrap() = h;
+                });
+                let _ = helper.join();
+                v
+            });
+            let o = await_free(&mut h0, &t0);
+            log(json!({"ev":"resolved","t":t0.id,"o":o}));
+            let h1 = slot.lock().unwrap().take();
+            if let Some(mut h1) = h1 {
+                let o = await_free(&mut h1, &t1);
+                log(json!({"ev":"resolved","t":t1.id,"o":o}));
+            }
+            while !sh.drop_done.load(SeqCst) {
+                thread::sleep(Duration::from_micros(100));
+            }
+            drop(scheduler);
+        })
+    };
+    while !announced.load(SeqCst) {
+        thread::sleep(Duration::from_micros(20));
+    }
+    thread::sleep(Duration::from_micros(delay));
+    log(json!({"ev":"drop_start"}));
+    drop(pool);
+    log(json!({"ev":"drop_done"}));
+    sh.drop_done.store(true, SeqCst);
+    let _ = spawner.join();
+    log(json!({"ev":"quiesce"}));
+}
+
 fn flush_free(tr: &Tracer) {
     let mut g = FREE_LOG.lock().unwrap_or_else(|e| e.into_inner());
     for v in g.drain(..) {
@@ -671,7 +736,11 @@ fn cmd_free(trace: &str, seed: u64, first: u64, count: u64, max_spawners: u64) {
         current.store(idx, SeqCst);
         *started.lock().unwrap() = Instant::now();
         FREE_LOG.lock().unwrap().push(json!({"ev":"reset"}));
-        free_scenario(idx, seed, max_spawners);
+        if idx % 4 == 3 {
+            fanout_scenario(idx, seed);
+        } else {
+            free_scenario(idx, seed, max_spawners);
+        }
         flush_free(&tr);
     }
     println!("{}", json!({"done":count,"hook_events":HOOK_EVENTS.load(SeqCst)}));
